@@ -905,10 +905,11 @@ func (tx *Transaction) ProcessRequestHeaders() *types.Interruption {
 
 func setAndReturnBodyLimitInterruption(tx *Transaction, status int) (*types.Interruption, int, error) {
 	tx.debugLogger.Warn().Msg("Disrupting transaction with body size above the configured limit (Action Reject)")
-	tx.interruption = &types.Interruption{
+	// Interrupt is mode aware: in DetectionOnly the interruption is only remembered.
+	tx.Interrupt(&types.Interruption{
 		Status: status,
 		Action: "deny",
-	}
+	})
 	return tx.interruption, 0, nil
 }
 
